@@ -18,6 +18,86 @@ M('C12', 'hash-update-order', FL, "            _h.update(b'\\x00' * i)\n        
 T('C12', 'twin-mod', FL, "        hleft = count - (hcount * len(hsalt + hpass))", "        hleft = count % len(hsalt + hpass)")
 T('C12', 'twin-one-update', FL, "            _h.update(b'\\x00' * i)\n            _h.update(hashdata)", "            _h.update((b'\\x00' * i) + hashdata)")
 T('C12', 'twin-count-mask-hex', FL, "        return (16 + (self._count & 15)) << ((self._count >> 4) + 6)", "        return (0x10 | (self._count & 0x0F)) << (6 + (self._count >> 4))")
+# --- hardening G5: C12 by value (stream length / context count / truncation), count codec as a small function, S2K codec
+_DK_COUNT = "        count = len(hsalt + hpass)\n        if self.specifier == String2KeyType.Iterated and self.count > len(hsalt + hpass):\n            count = self.count\n"
+_DK_LOOP = "        h = []\n        for i in range(0, ctx):\n            _h = self.halg.hasher\n            _h.update(b'\\x00' * i)\n            _h.update(hashdata)\n            h.append(_h)\n"
+_DK_Q = "        hcount = (count // len(hsalt + hpass))\n        hleft = count - (hcount * len(hsalt + hpass))\n"
+_CNT_GET = "        return (16 + (self._count & 15)) << ((self._count >> 4) + 6)"
+_CNT_SET = "        if val < 0 or val > 255:  # pragma: no cover\n            raise ValueError(\"count must be between 0 and 256\")\n        self._count = val\n"
+T('C12', 'twin-count-temporaries', FL, _CNT_GET, "        coded = self._count\n        mantissa = 16 + (coded & 0x0F)\n        exponent = (coded >> 4) + self._EXPBIAS\n        return mantissa << exponent",
+  more=[(FL, "    @sdproperty\n    def count(self):\n", "    _EXPBIAS = 6\n\n    @sdproperty\n    def count(self):\n")])
+T('C12', 'twin-count-divmod', FL, _CNT_GET, "        exponent, mantissa = divmod(self._count, 16)\n        return (16 + mantissa) * 2 ** (exponent + 6)")
+T('C12', 'twin-count-branchy', FL, _CNT_GET, "        c = self._count\n        if c < 16:\n            return (16 + c) << 6\n        else:\n            n = 16 | (c & 15)\n            n <<= (c >> 4) + 6\n            return n")
+T('C12', 'twin-count-setter-chained', FL, _CNT_SET, "        if not 0 <= val <= 255:  # pragma: no cover\n            raise ValueError(\"count must be between 0 and 256\")\n        self._count = val\n")
+T('C12', 'twin-count-setter-else', FL, _CNT_SET, "        if val in range(256):\n            self._count = val\n        else:  # pragma: no cover\n            raise ValueError(\"count must be between 0 and 256\")\n"
+  .replace('val in range(256)', '0 <= val and val < 256'))
+T('C12', 'twin-count-setter-range', FL, _CNT_SET, "        if val not in range(256):  # pragma: no cover\n            raise ValueError(\"count must be between 0 and 256\")\n        self._count = int(val)\n")
+M('C12', 'count-setter-range-255', FL, _CNT_SET, "        if val not in range(255):  # pragma: no cover\n            raise ValueError(\"count must be between 0 and 256\")\n        self._count = val\n", 'C12.3')
+M('C12', 'count-mantissa-plus', FL, _CNT_GET, "        coded = self._count\n        mantissa = 16 + (coded & 0x0F)\n        exponent = (coded >> 4) + 6\n        return mantissa << exponent + 1", 'C12.3')
+M('C12', 'count-shift-3', FL, _CNT_GET, "        coded = self._count\n        mantissa = 16 + (coded & 15)\n        exponent = (coded >> 3) + 6\n        return mantissa << exponent", 'C12.3')
+M('C12', 'count-setter-lower-1', FL, _CNT_SET, "        if not 1 <= val <= 255:  # pragma: no cover\n            raise ValueError(\"count must be between 0 and 256\")\n        self._count = val\n", 'C12.3')
+M('C12', 'count-setter-masks', FL, _CNT_SET, "        self._count = val & 0xFF\n", 'C12.3')
+T('C12', 'twin-dk-unit-temp', FL, _DK_COUNT + "\n" + _DK_Q + "\n        hashdata = ((hsalt + hpass) * hcount) + (hsalt + hpass)[:hleft]\n",
+  "        material = hsalt + hpass\n        mlen = len(material)\n        count = mlen\n        if self.specifier == String2KeyType.Iterated and self.count > mlen:\n            count = self.count\n\n        hcount, hleft = divmod(count, mlen)\n\n        hashdata = (material * hcount) + material[:hleft]\n")
+T('C12', 'twin-dk-len-sum', FL, _DK_Q, "        ulen = len(hsalt) + len(hpass)\n        hcount = count // ulen\n        hleft = count % ulen\n")
+T('C12', 'twin-dk-max', FL, _DK_COUNT, "        if self.specifier == String2KeyType.Iterated:\n            count = max(self.count, len(hsalt + hpass))\n        else:\n            count = len(hsalt + hpass)\n")
+T('C12', 'twin-dk-le-swapped', FL, _DK_COUNT, "        if self.specifier != String2KeyType.Iterated or self.count <= len(hsalt + hpass):\n            count = len(hsalt + hpass)\n        else:\n            count = self.count\n")
+T('C12', 'twin-dk-simple-one-copy', FL, "        hashdata = ((hsalt + hpass) * hcount) + (hsalt + hpass)[:hleft]\n",
+  "        if self.specifier == String2KeyType.Iterated:\n            hashdata = ((hsalt + hpass) * hcount) + (hsalt + hpass)[:hleft]\n        else:\n            hashdata = hsalt + hpass\n")
+T('C12', 'twin-dk-comprehension-helper', FL, _DK_LOOP, "        h = [self._preloaded_context(i, hashdata) for i in range(ctx)]\n",
+  more=[(FL, "    def derive_key(self, passphrase):\n", "    def _preloaded_context(self, nzeros, data):\n        hctx = self.halg.hasher\n        hctx.update(b'\\x00' * nzeros)\n        hctx.update(data)\n        return hctx\n\n    def derive_key(self, passphrase):\n")])
+T('C12', 'twin-dk-digest-in-loop', FL, _DK_LOOP, "        h = b''\n        for i in range(ctx):\n            _h = self.halg.hasher\n            _h.update(b'\\x00' * i + hashdata)\n            h += _h.digest()\n",
+  more=[(FL, "        return b''.join(hc.digest() for hc in h)[:(keylen // 8)]", "        return h[:keylen >> 3]")])
+T('C12', 'twin-dk-ceil-intdiv', FL, "        ctx = int(math.ceil((keylen / hashlen)))", "        ctx = (keylen + hashlen - 1) // hashlen")
+T('C12', 'twin-dk-ceil-neg', FL, "        ctx = int(math.ceil((keylen / hashlen)))", "        ctx = -(-keylen // hashlen)")
+T('C12', 'twin-dk-encode-default', FL, "            hpass = passphrase.encode('utf-8')", "            hpass = passphrase.encode()")
+T('C12', 'twin-dk-isinstance-str', FL, "        if isinstance(passphrase, bytes):\n            hpass = passphrase\n        else:\n            hpass = passphrase.encode('utf-8')",
+  "        hpass = passphrase\n        if not isinstance(passphrase, bytes):\n            hpass = passphrase.encode('utf-8')")
+T('C12', 'twin-dk-preload-bytes-n', FL, "            _h.update(b'\\x00' * i)\n", "            _h.update(bytes(i))\n")
+T('C12', 'twin-dk-salt-membership', FL, "        hsalt = b''\n", "", more=[(FL, "        if self.specifier >= String2KeyType.Salted:\n            hsalt = bytes(self.salt)\n",
+  "        hsalt = bytes(self.salt) if self.specifier in (String2KeyType.Salted, String2KeyType.Iterated) else b''\n")])
+T('C12', 'twin-dk-salt-not-simple', FL, "        if self.specifier >= String2KeyType.Salted:\n            hsalt = bytes(self.salt)\n", "        if self.specifier != String2KeyType.Simple:\n            hsalt = bytearray(self.salt)\n")
+T('C12', 'twin-dk-pass-tuple-isinstance', FL, "        if isinstance(passphrase, bytes):\n            hpass = passphrase\n        else:\n            hpass = passphrase.encode('utf-8')",
+  "        hpass = passphrase.encode('utf-8') if not isinstance(passphrase, (bytes, bytearray)) else passphrase")
+T('C12', 'twin-dk-listcomp-join', FL, "        return b''.join(hc.digest() for hc in h)[:(keylen // 8)]", "        digests = [hc.digest() for hc in h]\n        key = b''.join(digests)\n        return key[:keylen // 8]")
+T('C12', 'twin-dk-slice-of-longer-repeat', FL, "        hashdata = ((hsalt + hpass) * hcount) + (hsalt + hpass)[:hleft]\n", "        hashdata = ((hsalt + hpass) * (hcount + 1))[:count]\n")
+M('C12', 'dk-slice-of-short-repeat', FL, "        hashdata = ((hsalt + hpass) * hcount) + (hsalt + hpass)[:hleft]\n", "        hashdata = ((hsalt + hpass) * hcount)[:count]\n", 'C12.1')
+M('C12', 'dk-slice-count-plus-len', FL, "        hashdata = ((hsalt + hpass) * hcount) + (hsalt + hpass)[:hleft]\n", "        hashdata = ((hsalt + hpass) * (hcount + 1))[:hcount * len(hsalt + hpass) + len(hsalt + hpass)]\n", 'C12.1')
+M('C12', 'dk-max-for-all', FL, _DK_COUNT, "        count = max(self.count, len(hsalt + hpass))\n", 'C12.1')
+M('C12', 'dk-count-lt', FL, _DK_COUNT, "        count = len(hsalt + hpass)\n        if self.specifier == String2KeyType.Iterated and self.count < len(hsalt + hpass):\n            count = self.count\n", 'C12.1')
+M('C12', 'dk-len-chars', FL, _DK_Q, "        ulen = len(hsalt) + len(passphrase)\n        hcount = count // ulen\n        hleft = count % ulen\n", 'C12.1')
+M('C12', 'dk-hleft-plus1', FL, _DK_Q, "        hcount, hleft = divmod(count, len(hsalt + hpass))\n        hleft += 1\n", 'C12.1')
+M('C12', 'dk-round-up-copies', FL, _DK_Q, "        hcount = -(-count // len(hsalt + hpass))\n        hleft = 0\n", 'C12.1')
+M('C12', 'dk-ctx-plus1', FL, "        ctx = int(math.ceil((keylen / hashlen)))", "        ctx = keylen // hashlen + 1", 'C12.2')
+M('C12', 'dk-ctx-bytes-vs-bits', FL, "        hashlen = self.halg.digest_size * 8\n", "        hashlen = self.halg.digest_size\n", 'C12.2')
+M('C12', 'dk-trunc-bits', FL, "        return b''.join(hc.digest() for hc in h)[:(keylen // 8)]", "        return b''.join(hc.digest() for hc in h)[:keylen]", 'C12.1')
+M('C12', 'dk-helper-appends-zeros', FL, _DK_LOOP, "        h = [self._preloaded_context(i, hashdata) for i in range(ctx)]\n", 'C12.1',
+  more=[(FL, "    def derive_key(self, passphrase):\n", "    def _preloaded_context(self, nzeros, data):\n        hctx = self.halg.hasher\n        hctx.update(data)\n        hctx.update(b'\\x00' * nzeros)\n        return hctx\n\n    def derive_key(self, passphrase):\n")])
+M('C12', 'dk-encode-latin1', FL, "            hpass = passphrase.encode('utf-8')", "            hpass = passphrase.encode('latin-1')", 'C12.1')
+_S2K_PARSE_HEAD = "        if bool(self):\n            self.encalg = packet[0]\n            del packet[0]\n\n            self.specifier = packet[0]\n            del packet[0]\n"
+T('C12', 'twin-writer-guard-clause', FL, "        _bytes.append(self.usage)\n        if bool(self):\n            _bytes.append(self.encalg)\n            _bytes.append(self.specifier)\n",
+  "        _bytes.append(self.usage)\n        if self.usage in (254, 255):\n            _bytes.append(self.encalg)\n            _bytes.append(self.specifier)\n")
+T('C12', 'twin-writer-halg-backing', FL, "            if self.specifier >= String2KeyType.Simple:\n                _bytes.append(self.halg)\n", "            _bytes.append(self._halg)\n")
+T('C12', 'twin-reader-iv-shift', FL, "                self.iv = packet[:(self.encalg.block_size // 8)]\n                del packet[:(self.encalg.block_size // 8)]",
+  "                ivlen = self.encalg.block_size >> 3\n                self.iv = packet[:ivlen]\n                del packet[:ivlen]")
+T('C12', 'twin-copy-renamed-local', FL, "        s2k = String2Key()\n        s2k.usage = self.usage\n        s2k.encalg = self.encalg\n        s2k.specifier = self.specifier\n        s2k.gnuext = self.gnuext\n        s2k.iv = self.iv\n        s2k.halg = self.halg\n        s2k.salt = copy.copy(self.salt)\n        s2k.count = self._count\n        s2k.scserial = self.scserial\n        return s2k",
+  "        dup = String2Key()\n        dup.usage = self.usage\n        dup.encalg = self.encalg\n        dup.specifier = self.specifier\n        dup.gnuext = self.gnuext\n        dup.iv = self.iv\n        dup.halg = self.halg\n        dup.salt = copy.copy(self.salt)\n        coded = self._count\n        dup.count = coded\n        dup.scserial = self.scserial\n        return dup")
+_S2K_WR = "        _bytes = bytearray()\n        _bytes.append(self.usage)\n        if bool(self):\n            _bytes.append(self.encalg)\n            _bytes.append(self.specifier)\n            if self.specifier == String2KeyType.GNUExtension:\n                return self._experimental_bytearray(_bytes)\n            if self.specifier >= String2KeyType.Simple:\n                _bytes.append(self.halg)\n            if self.specifier >= String2KeyType.Salted:\n                _bytes += self.salt\n            if self.specifier == String2KeyType.Iterated:\n                _bytes.append(self._count)\n            if self.iv is not None:\n                _bytes += self.iv\n        return _bytes\n"
+T('C12', 'twin-writer-restructured', FL, _S2K_WR, "        out = bytearray([self.usage])\n        if not self:\n            return out\n        out += bytearray([self.encalg, self.specifier])\n        if self.specifier == String2KeyType.GNUExtension:\n            return self._experimental_bytearray(out)\n        out.append(self.halg)\n        if self.specifier in (String2KeyType.Salted, String2KeyType.Iterated):\n            out.extend(self.salt)\n        if self.specifier == String2KeyType.Iterated:\n            out += self.int_to_bytes(self._count, 1)\n        if self.iv is None:\n            return out\n        return out + self.iv\n")
+M('C12', 'writer-salt-before-halg', FL, "            if self.specifier >= String2KeyType.Simple:\n                _bytes.append(self.halg)\n            if self.specifier >= String2KeyType.Salted:\n                _bytes += self.salt\n",
+  "            if self.specifier >= String2KeyType.Salted:\n                _bytes += self.salt\n            if self.specifier >= String2KeyType.Simple:\n                _bytes.append(self.halg)\n", 'C12.4')
+_S2K_RD = "        if bool(self):\n            self.encalg = packet[0]\n            del packet[0]\n\n            self.specifier = packet[0]\n            del packet[0]\n\n            if self.specifier == String2KeyType.GNUExtension:\n                return self._experimental_parse(packet, iv)\n\n            if self.specifier >= String2KeyType.Simple:\n                # this will always be true\n                self.halg = packet[0]\n                del packet[0]\n\n            if self.specifier >= String2KeyType.Salted:\n                self.salt = packet[:8]\n                del packet[:8]\n\n            if self.specifier == String2KeyType.Iterated:\n                self.count = packet[0]\n                del packet[0]\n\n            if iv:\n                self.iv = packet[:(self.encalg.block_size // 8)]\n                del packet[:(self.encalg.block_size // 8)]\n"
+T('C12', 'twin-reader-guard-clause', FL, _S2K_RD, "        if not bool(self):\n            return\n\n" + "".join((l[4:] if l.startswith('    ') else l) + "\n" for l in _S2K_RD.split("\n")[1:-1]))
+T('C12', 'twin-dk-ifelse-and-condexpr', FL, _DK_COUNT, "        if self.specifier == String2KeyType.Iterated and self.count > len(hsalt + hpass):\n            count = self.count\n        else:\n            count = len(hsalt + hpass)\n",
+  more=[(FL, "        if isinstance(passphrase, bytes):\n            hpass = passphrase\n        else:\n            hpass = passphrase.encode('utf-8')", "        hpass = passphrase if isinstance(passphrase, bytes) else passphrase.encode('utf-8')")])
+M('C12', 'writer-decoded-count', FL, "                _bytes.append(self._count)", "                _bytes.append(self.count)", 'C12.4')
+M('C12', 'writer-halg-two-octets', FL, "                _bytes.append(self.halg)\n", "                _bytes += self.int_to_bytes(self.halg, 2)\n", 'C12.4')
+M('C12', 'reader-iv-bits', FL, "                self.iv = packet[:(self.encalg.block_size // 8)]\n                del packet[:(self.encalg.block_size // 8)]",
+  "                self.iv = packet[:(self.encalg.block_size // 4)]\n                del packet[:(self.encalg.block_size // 4)]", 'C12.4')
+M('C12', 'copy-decoded-count', FL, "        s2k.count = self._count\n", "        s2k.count = self.count\n", 'C12.4')
+M('C12', 'copy-drops-count', FL, "        s2k.count = self._count\n", "", 'C12.4')
+M('C12', 'reader-count-after-iv', FL, "            if self.specifier == String2KeyType.Iterated:\n                self.count = packet[0]\n                del packet[0]\n\n            if iv:\n                self.iv = packet[:(self.encalg.block_size // 8)]\n                del packet[:(self.encalg.block_size // 8)]",
+  "            if iv:\n                self.iv = packet[:(self.encalg.block_size // 8)]\n                del packet[:(self.encalg.block_size // 8)]\n\n            if self.specifier == String2KeyType.Iterated:\n                self.count = packet[0]\n                del packet[0]", 'C12.4')
 
 # =============================================================================================== C18
 M('C18', 'fp-without-pkalg', PK, "        fp.update(self.int_to_bytes(self.pkalg))\n", "", 'C18.1')
@@ -227,6 +307,71 @@ M('C06', 'unprotect-outside-try', PGP, "        try:\n            for sk in iter
   "        for sk in itertools.chain([self], self.subkeys.values()):\n            sk._key.unprotect(passphrase)\n        try:\n            del passphrase\n            yield self", 'C06.1')
 T('C06', 'twin-clear-helper-var', PGP, "            for sk in itertools.chain([self], self.subkeys.values()):\n                sk._key.keymaterial.clear()", "            for k in itertools.chain([self], self.subkeys.values()):\n                k._key.keymaterial.clear()")
 T('C06', 'twin-keyblob-pt-join', FL, "        pt += hashlib.new('sha1', pt).digest()\n", "        digest = hashlib.new('sha1', pt).digest()\n        pt += digest\n")
+# --- hardening G5: C06 rules on interpreter values / def-use instead of source text
+_UNL_TRY = "        try:\n            for sk in itertools.chain([self], self.subkeys.values()):\n                sk._key.unprotect(passphrase)\n            del passphrase\n            yield self\n\n        finally:\n            # clean up here by deleting the previously decrypted secret key material\n            for sk in itertools.chain([self], self.subkeys.values()):\n                sk._key.keymaterial.clear()"
+T('C06', 'twin-unlock-keys-list', PGP, _UNL_TRY, "        keys = [self] + list(self.subkeys.values())\n        try:\n            for sk in keys:\n                sk._key.unprotect(passphrase)\n            del passphrase\n            yield self\n\n        finally:\n            for sk in keys:\n                sk._key.keymaterial.clear()")
+T('C06', 'twin-unlock-split-primary', PGP, _UNL_TRY, "        try:\n            self._key.unprotect(passphrase)\n            for sk in self.subkeys.values():\n                sk._key.unprotect(passphrase)\n            del passphrase\n            yield self\n\n        finally:\n            self._key.keymaterial.clear()\n            for sub in self._children.values():\n                sub._key.keymaterial.clear()")
+T('C06', 'twin-unlock-clear-temp-kw', PGP, _UNL_TRY, "        try:\n            for sk in (self, *self.subkeys.values()):\n                pkt = sk._key\n                pkt.unprotect(passphrase=passphrase)\n            del passphrase\n            yield self\n\n        finally:\n            for sk in (self, *self.subkeys.values()):\n                km = sk._key.keymaterial\n                km.clear()")
+T('C06', 'twin-unlock-nested-try', PGP, _UNL_TRY, "        try:\n            for sk in itertools.chain([self], self.subkeys.values()):\n                sk._key.unprotect(passphrase)\n            del passphrase\n            try:\n                yield self\n            finally:\n                pass\n\n        finally:\n            for sk in list(itertools.chain([self], self.subkeys.values())):\n                sk._key.keymaterial.clear()")
+T('C06', 'twin-unlock-helpers', PGP, _UNL_TRY, "        try:\n            self._unprotect_all(passphrase)\n            del passphrase\n            yield self\n\n        finally:\n            self._relock()",
+  more=[(PGP, "    @contextlib.contextmanager\n    def unlock(self, passphrase):\n", "    def _unprotect_all(self, passphrase):\n        for sk in itertools.chain([self], self.subkeys.values()):\n            sk._key.unprotect(passphrase)\n\n    def _relock(self):\n        for sk in itertools.chain([self], self.subkeys.values()):\n            sk._key.keymaterial.clear()\n\n    @contextlib.contextmanager\n    def unlock(self, passphrase):\n")])
+M('C06', 'unlock-helper-relocks-subkeys-only', PGP, _UNL_TRY, "        try:\n            for sk in itertools.chain([self], self.subkeys.values()):\n                sk._key.unprotect(passphrase)\n            del passphrase\n            yield self\n\n        finally:\n            self._relock()", 'C06.1',
+  more=[(PGP, "    @contextlib.contextmanager\n    def unlock(self, passphrase):\n", "    def _relock(self):\n        for sk in self.subkeys.values():\n            sk._key.keymaterial.clear()\n\n    @contextlib.contextmanager\n    def unlock(self, passphrase):\n")])
+M('C06', 'unlock-chain-reused', PGP, _UNL_TRY, "        keys = itertools.chain([self], self.subkeys.values())\n        try:\n            for sk in keys:\n                sk._key.unprotect(passphrase)\n            del passphrase\n            yield self\n\n        finally:\n            for sk in keys:\n                sk._key.keymaterial.clear()", 'C06.1')
+M('C06', 'unlock-subkeys-cleared-on-success-only', PGP, _UNL_TRY, "        try:\n            for sk in itertools.chain([self], self.subkeys.values()):\n                sk._key.unprotect(passphrase)\n            del passphrase\n            yield self\n            for sk in self.subkeys.values():\n                sk._key.keymaterial.clear()\n\n        finally:\n            self._key.keymaterial.clear()", 'C06.1')
+M('C06', 'unlock-clear-subkeys-only', PGP, "            for sk in itertools.chain([self], self.subkeys.values()):\n                sk._key.keymaterial.clear()", "            for sk in self.subkeys.values():\n                sk._key.keymaterial.clear()", 'C06.1')
+M('C06', 'unlock-except-pgperror-only', PGP, _UNL_TRY, "        try:\n            for sk in itertools.chain([self], self.subkeys.values()):\n                sk._key.unprotect(passphrase)\n            del passphrase\n            yield self\n\n        except PGPError:\n            for sk in itertools.chain([self], self.subkeys.values()):\n                sk._key.keymaterial.clear()\n            raise\n\n        for sk in itertools.chain([self], self.subkeys.values()):\n            sk._key.keymaterial.clear()", 'C06.1')
+M('C06', 'unlock-unprotect-not-delegating', PK, "    def unprotect(self, passphrase):\n        self.keymaterial.decrypt_keyblob(passphrase)\n", "    def unprotect(self, passphrase):\n        if self.keymaterial.s2k.usage == 255:\n            self.keymaterial.decrypt_keyblob(passphrase)\n", 'C06.1')
+_CLEAR = "        for field in self.__privfields__:\n            delattr(self, field)\n            setattr(self, field, MPI(0))\n\n\nclass OpaquePrivKey"
+T('C06', 'twin-clear-no-delattr', FL, _CLEAR, "        zero = MPI(0)\n        for name in self.__privfields__:\n            setattr(self, name, zero)\n\n\nclass OpaquePrivKey")
+T('C06', 'twin-clear-comprehension', FL, _CLEAR, "        [setattr(self, f, MPI(0)) for f in self.__privfields__]\n\n\nclass OpaquePrivKey")
+M('C06', 'clear-only-when-protected', FL, _CLEAR, "        if not self.s2k:\n            return\n        for field in self.__privfields__:\n            delattr(self, field)\n            setattr(self, field, MPI(0))\n\n\nclass OpaquePrivKey", 'C06.2')
+M('C06', 'clear-pubfields', FL, _CLEAR, "        for field in self.__pubfields__:\n            delattr(self, field)\n            setattr(self, field, MPI(0))\n\n\nclass OpaquePrivKey", 'C06.2')
+M('C06', 'blob-kept-renamed-local', FL, "        kb = super(DSAPriv, self).decrypt_keyblob(passphrase)\n        del passphrase\n\n        self.x = MPI(kb)\n",
+  "        blob = super(DSAPriv, self).decrypt_keyblob(passphrase)\n        del passphrase\n        kb = blob\n        self._plain = bytes(blob)\n\n        self.x = MPI(kb)\n", 'C06.2')
+M('C06', 'secret-int-kept-via-temp', FL, "    def _compute_chksum(self):\n        chs = sum(bytearray(self.x.to_mpibytes())) % 65536\n        self.chksum = bytearray(self.int_to_bytes(chs, 2))\n\n    def _generate(self, key_size):\n        if any(c != 0 for c in self):  # pragma: no cover\n            raise PGPError(\"key is already populated\")\n",
+  "    def _compute_chksum(self):\n        raw = self.x.to_mpibytes()\n        self._mpicache = raw\n        chs = sum(bytearray(raw)) % 65536\n        self.chksum = bytearray(self.int_to_bytes(chs, 2))\n\n    def _generate(self, key_size):\n        if any(c != 0 for c in self):  # pragma: no cover\n            raise PGPError(\"key is already populated\")\n", 'C06.2')
+M('C06', 'privkey-cached-in-dict', FL, "        s = self.int_to_bytes(self.s, (self.oid.key_size + 7) // 8)\n        return ed25519.Ed25519PrivateKey.from_private_bytes(s)",
+  "        if '_pk' not in self.__dict__:\n            s = self.int_to_bytes(self.s, (self.oid.key_size + 7) // 8)\n            self.__dict__['_pk'] = ed25519.Ed25519PrivateKey.from_private_bytes(s)\n        return self.__dict__['_pk']", 'C06.2')
+_KB_PT = "        pt = bytearray()\n        for pf in self.__privfields__:\n            pt += getattr(self, pf).to_mpibytes()\n\n        # append a SHA-1 hash of the plaintext so far to the plaintext\n        pt += hashlib.new('sha1', pt).digest()\n\n        # encrypt\n        self.encbytes = bytearray(_encrypt(bytes(pt), bytes(sessionkey), enc_alg, bytes(self.s2k.iv)))\n\n        # delete pt and clear self\n        del pt\n        self.clear()"
+T('C06', 'twin-keyblob-join-temps', FL, _KB_PT, "        secret = bytearray().join([getattr(self, name).to_mpibytes() for name in self.__privfields__])\n        trailer = hashlib.new('sha1', secret).digest()\n        plaintext = secret + trailer\n        ciphertext = _encrypt(bytes(plaintext), key=bytes(sessionkey), alg=enc_alg, iv=bytes(self.s2k.iv))\n        self.encbytes = bytearray(ciphertext)\n        del secret, trailer, plaintext\n        self.clear()")
+T('C06', 'twin-keyblob-sha1-update', FL, "        pt += hashlib.new('sha1', pt).digest()\n", "        sha = hashlib.new('sha1')\n        sha.update(pt)\n        pt += sha.digest()\n")
+T('C06', 'twin-keyblob-iv-temp', FL, "        self.s2k.iv = enc_alg.gen_iv()\n", "        iv = enc_alg.gen_iv()\n        self.s2k.iv = iv\n",
+  more=[(FL, "bytearray(_encrypt(bytes(pt), bytes(sessionkey), enc_alg, bytes(self.s2k.iv)))", "bytearray(_encrypt(bytes(pt), bytes(sessionkey), enc_alg, bytes(iv)))")])
+T('C06', 'twin-keyblob-s2k-alias', FL, "        self.s2k.usage = 254\n        self.s2k.encalg = enc_alg\n        self.s2k.specifier = String2KeyType.Iterated\n        self.s2k.iv = enc_alg.gen_iv()\n        self.s2k.halg = hash_alg\n        self.s2k.salt = bytearray(os.urandom(8))\n        self.s2k.count = hash_alg.tuned_count\n",
+  "        s2k = self.s2k\n        s2k.usage = 254\n        s2k.encalg = enc_alg\n        s2k.specifier = String2KeyType.Iterated\n        s2k.iv = enc_alg.gen_iv()\n        s2k.halg = hash_alg\n        s2k.salt = bytearray(os.urandom(8))\n        s2k.count = hash_alg.tuned_count\n",
+  more=[(FL, "        sessionkey = self.s2k.derive_key(passphrase)\n        del passphrase\n\n        pt = bytearray()\n        for pf in self.__privfields__:\n            pt += getattr(self, pf).to_mpibytes()\n", "        sessionkey = s2k.derive_key(passphrase)\n        del passphrase\n\n        pt = bytearray(b''.join(getattr(self, pf).to_mpibytes() for pf in self.__privfields__))\n")])
+T('C06', 'twin-decrypt-nested-checks', FL, "        if self.s2k.usage == 254 and not pt[-20:] == hashlib.new('sha1', pt[:-20]).digest():\n            # if the usage byte is 254, key material is followed by a 20-octet sha-1 hash of the rest\n            # of the key material block\n            raise PGPDecryptionError(\"Passphrase was incorrect!\")\n",
+  "        if self.s2k.usage == 254:\n            body, trailer = pt[:-20], pt[-20:]\n            if trailer != hashlib.new('sha1', body).digest():\n                raise PGPDecryptionError(\"Passphrase was incorrect!\")\n")
+T('C06', 'twin-keyset-helper', PGP, "        for sk in itertools.chain([self], self.subkeys.values()):\n            sk._key.protect(passphrase, enc_alg, hash_alg)\n\n        del passphrase\n",
+  "        for sk in self._primary_and_subkeys():\n            sk._key.protect(passphrase, enc_alg, hash_alg)\n\n        del passphrase\n\n    def _primary_and_subkeys(self):\n        return itertools.chain([self], self.subkeys.values())\n",
+  more=[(PGP, "            for sk in itertools.chain([self], self.subkeys.values()):\n                sk._key.unprotect(passphrase)\n", "            for sk in self._primary_and_subkeys():\n                sk._key.unprotect(passphrase)\n"),
+        (PGP, "            for sk in itertools.chain([self], self.subkeys.values()):\n                sk._key.keymaterial.clear()", "            for sk in self._primary_and_subkeys():\n                sk._key.keymaterial.clear()")])
+M('C06', 'keyblob-fresh-iv-not-stored', FL, "bytearray(_encrypt(bytes(pt), bytes(sessionkey), enc_alg, bytes(self.s2k.iv)))", "bytearray(_encrypt(bytes(pt), bytes(sessionkey), enc_alg, bytes(enc_alg.gen_iv())))", 'C06.3')
+M('C06', 'keyblob-salt-after-derive', FL, "        self.s2k.salt = bytearray(os.urandom(8))\n        self.s2k.count = hash_alg.tuned_count\n", "        self.s2k.count = hash_alg.tuned_count\n", 'C06.3',
+  more=[(FL, "        sessionkey = self.s2k.derive_key(passphrase)\n        del passphrase\n\n        pt = bytearray()", "        sessionkey = self.s2k.derive_key(passphrase)\n        self.s2k.salt = bytearray(os.urandom(8))\n        del passphrase\n\n        pt = bytearray()")])
+M('C06', 'keyblob-sha1-of-first-field', FL, "            pt += getattr(self, pf).to_mpibytes()\n\n        # append a SHA-1 hash of the plaintext so far to the plaintext\n        pt += hashlib.new('sha1', pt).digest()\n",
+  "            pt += getattr(self, pf).to_mpibytes()\n\n        pt += hashlib.new('sha1', getattr(self, self.__privfields__[0]).to_mpibytes()).digest()\n", 'C06.3')
+_PKT_PROTECT = "        self.keymaterial.encrypt_keyblob(passphrase, enc_alg, hash_alg)\n        del passphrase\n        self.update_hlen()\n"
+T('C06', 'twin-pkt-protect-kw', PK, _PKT_PROTECT, "        km = self.keymaterial\n        km.encrypt_keyblob(passphrase, hash_alg=hash_alg, enc_alg=enc_alg)\n        del passphrase\n        self.update_hlen()\n")
+M('C06', 'pkt-protect-no-hlen', PK, _PKT_PROTECT, "        self.keymaterial.encrypt_keyblob(passphrase, enc_alg, hash_alg)\n        del passphrase\n", 'C06.3')
+M('C06', 'pkt-protect-hlen-first', PK, _PKT_PROTECT, "        self.update_hlen()\n        self.keymaterial.encrypt_keyblob(passphrase, enc_alg, hash_alg)\n        del passphrase\n", 'C06.3')
+M('C06', 'pkt-protect-algs-swapped', PK, _PKT_PROTECT, "        self.keymaterial.encrypt_keyblob(passphrase, hash_alg, enc_alg)\n        del passphrase\n        self.update_hlen()\n", 'C06.3')
+_KEY_PROTECT = "        for sk in itertools.chain([self], self.subkeys.values()):\n            sk._key.protect(passphrase, enc_alg, hash_alg)\n"
+T('C06', 'twin-key-protect-list', PGP, _KEY_PROTECT, "        self._key.protect(passphrase, enc_alg, hash_alg)\n        for sub in list(self.subkeys.values()):\n            sub._key.protect(passphrase, enc_alg=enc_alg, hash_alg=hash_alg)\n")
+M('C06', 'key-protect-primary-only', PGP, _KEY_PROTECT, "        self._key.protect(passphrase, enc_alg, hash_alg)\n", 'C06.3')
+M('C06', 'key-protect-subkeys-only', PGP, _KEY_PROTECT, "        for sk in self.subkeys.values():\n            sk._key.protect(passphrase, enc_alg, hash_alg)\n", 'C06.3')
+T('C06', 'twin-decrypt-chk-mask', FL, "(sum(bytearray(pt[:-2])) % 65536):  # pragma: no cover", "(sum(bytearray(pt[:-2])) & 0xFFFF):  # pragma: no cover")
+T('C06', 'twin-decrypt-s2k-bool', FL, "        if not self.s2k:  # pragma: no cover\n            # not encrypted\n            return\n", "        if bool(self.s2k) is False:  # pragma: no cover\n            return\n".replace('bool(self.s2k) is False', 'not bool(self.s2k)'))
+T('C06', 'twin-subclass-super-kw', FL, "        kb = super(DSAPriv, self).decrypt_keyblob(passphrase)\n        del passphrase\n\n        self.x = MPI(kb)\n", "        blob = super().decrypt_keyblob(passphrase=passphrase)\n        del passphrase\n\n        x = MPI(blob)\n        self.x = x\n        kb = blob\n")
+M('C06', 'sha1-guard-warns', FL, "        if self.s2k.usage == 254 and not pt[-20:] == hashlib.new('sha1', pt[:-20]).digest():\n            # if the usage byte is 254, key material is followed by a 20-octet sha-1 hash of the rest\n            # of the key material block\n            raise PGPDecryptionError(\"Passphrase was incorrect!\")\n",
+  "        if self.s2k.usage == 254 and not pt[-20:] == hashlib.new('sha1', pt[:-20]).digest():\n            warnings.warn(\"Passphrase was incorrect!\")\n", 'C06.4')
+M('C06', 'sha1-guard-19', FL, "not pt[-20:] == hashlib.new('sha1', pt[:-20]).digest():", "not pt[-19:] == hashlib.new('sha1', pt[:-20]).digest()[1:]:", 'C06.4')
+M('C06', 'subclass-store-from-ciphertext', FL, "        kb = super(ElGPriv, self).decrypt_keyblob(passphrase)\n        del passphrase\n\n        self.x = MPI(kb)\n", "        kb = super(ElGPriv, self).decrypt_keyblob(passphrase)\n        del passphrase\n\n        self.x = MPI(bytearray(self.encbytes))\n", 'C06.4')
+T('C06', 'twin-export-swapped-arms', FL, "        if self.s2k:\n            _bytes += self.encbytes\n\n        else:\n            for field in self.__privfields__:\n                _bytes += getattr(self, field).to_mpibytes()",
+  "        if not self.s2k:\n            _bytes += b''.join(getattr(self, field).to_mpibytes() for field in self.__privfields__)\n\n        else:\n            _bytes += self.encbytes")
+M('C06', 'export-private-on-usage', FL, "        if self.s2k:\n            _bytes += self.encbytes\n\n        else:\n            for field in self.__privfields__:\n                _bytes += getattr(self, field).to_mpibytes()",
+  "        if self.s2k and self.encbytes:\n            _bytes += self.encbytes\n\n        else:\n            for field in self.__privfields__:\n                _bytes += getattr(self, field).to_mpibytes()", 'C06.5')
 
 # =============================================================================================== C10
 M('C10', 'crc-init', TY, "    __crc24_init = 0x0B704CE", "    __crc24_init = 0x0B704CF", 'C10.1')
